@@ -1,6 +1,7 @@
 """C12 — the reference server flags exactly the requests that deviate from the test setup; timeout header grammar."""
 import itertools
-from ..core import Prop
+import re
+from ..core import Prop, Violation, parse_sx, sx
 
 N_AXES = 3 * 2 * 3 * 2 * 6 * 3      # version, GET/POST, protocol, codec, compression, tls mode (off / on / on+client cert)
 N_ACTUAL = 3 * 7 * 2 * 6 * 3        # version, wire shape, codec, compression, tls mode
@@ -63,6 +64,37 @@ def req_sx(r):
     return [r[k] for k in F]
 
 
+def boundary_values():
+    """digit strings at the length / overflow boundaries x units, signs, blanks"""
+    digs = set()
+    for n in range(1, 22):
+        digs.update(["9" * n, "1" + "0" * (n - 1), "0" * (n - 1) + "1", "0" * n, "0" + "9" * (n - 1)])
+    digs.update(["2562047", "2562048", "2562049", "5124095", "5124096", "5124097", "7686143", "7686144", "99999999", "100000000",
+                 "153722867", "153722868", "9999999999", "10000000000", "9223372036854", "9223372036855",
+                 "9223372036854775807", "9223372036854775808", "18446744073709551616"])
+    bnd = []
+    for d in sorted(digs):
+        bnd.append(d)
+        for u in UNITS + "hsUN ":
+            bnd.append(d + u)
+        bnd.extend(["+" + d, "-" + d, "+" + d + "S", "-" + d + "m", " " + d, d + " ", d + "_" + d + "n", d + ".0S"])
+    return bnd
+
+
+UNIT_NS = {"H": 3600 * 10 ** 9, "M": 60 * 10 ** 9, "S": 10 ** 9, "m": 10 ** 6, "u": 10 ** 3, "n": 1}
+
+
+def grammar_oracle(p, val):
+    """The protocol documents, as a regular expression: accepted duration in ns, or None.  Independent of the
+    Coq model AND of the constants read off the compiled code (C12_Consts.v follows the code; this does not)."""
+    b = val.encode("latin-1") if isinstance(val, str) else bytes(val)
+    if p == 1:
+        m = re.fullmatch(rb"[0-9]{1,10}", b)
+        return min(int(b) * 10 ** 6, 2 ** 63 - 1) if m else None
+    m = re.fullmatch(rb"([0-9]{1,8})([HMSmun])", b)
+    return min(int(m.group(1)) * UNIT_NS[m.group(2).decode()], 2 ** 63 - 1) if m else None
+
+
 SHAPE_AXES = {0: (1, 0), 1: (0, 0), 2: (0, 0), 3: (0, 1), 4: (0, 1), 5: (0, 2), 6: (0, 2)}   # shape -> (get, protocol)
 
 
@@ -74,7 +106,7 @@ class C12(Prop):
     packages = {"rs": "internal/app/referenceserver"}
     kinds = {"c12.seq": "rs", "c12.matrix": "rs", "c12.render": "rs", "c12.timeouts": "rs"}
     consts = ("rs",)
-    rule = ("c12.matrix: the FULL matrix of 648 announced set-ups (3 HTTP versions x GET/POST x 3 protocols x 2 codecs x 6 compressions x "
+    rule = ("c12.matrix: the FULL matrix (in chunks of 36 renderings) of 648 announced set-ups (3 HTTP versions x GET/POST x 3 protocols x 2 codecs x 6 compressions x "
             "TLS off/on/on+client-cert) x 756 client renderings (3 versions x 7 wire shapes x 2 codecs x 6 compressions x 3 TLS modes) = "
             "489,888 requests through referenceServerChecks (httptest, recording printer) on every run; c12.render: the harness's "
             "independent renderer against the model's render for every rendering and set-up; c12.timeouts: ALL strings of length <=4 "
@@ -108,25 +140,40 @@ class C12(Prop):
             return "timeout header grammar / duration / removal / echo: implementation differs from the proved model"
         return "request checks: implementation differs from the proved model"
 
+    def extra(self, ctx):
+        """Go side against the documents' grammar directly (python oracle) on the boundary strings: catches a change of the
+        digit limits / unit table with a replayable input even though the regenerated constants make the model follow the code
+        (the proofs then fail too, but without a failing input)."""
+        vals = boundary_values() + ["", "0", "5", "+5", "-0", "5S", "S", "+5S", "-0m", "1h", "1s", "00000000001", "000000001H"]
+        cases = [["c12.timeouts", p, vals[i:i + 200]] for p in (1, 2, 3) for i in range(0, len(vals), 200)]
+        g, _ = ctx.eval_both(cases, "oracle")
+        out = []
+        for c, gr in zip(cases, g):
+            res = parse_sx(gr) if gr else []
+            for v, r in zip(c[2], res):
+                want = grammar_oracle(c[1], v)
+                ok = isinstance(r, list) and len(r) == 6 and r[3] == 0 and r[4] == 0
+                if ok and want is not None:
+                    ok = r[1] == [] and r[2] == [want] and r[5] == [want // 10 ** 6]
+                elif ok:
+                    ok = r[2] == [] and r[5] == [] and len(r[1]) == 1 and r[1][0][0] in (30, 31, 32, 33, 34, 35)
+                if not ok and len(out) < 2:
+                    small = ["c12.timeouts", c[1], [v]]
+                    body = ("; C12: timeout header: implementation differs from the protocol grammar (python oracle: %s)\n"
+                            "; impl : %s\n; replay: ./check C12 --replay <this file>\n%s\n" % (
+                                "accept as %d ns" % want if want is not None else "reject with one feedback line, header removed",
+                                sx(r), sx([small[0], 0] + small[1:])))
+                    out.append(Violation("timeout grammar oracle: %s" % sx(small)[:200], body))
+        ctx.notes["oracle_timeout_values"] = 3 * len(vals)
+        return out
+
     # ------------------------------------------------------------------
     def gen_timeouts(self, rng, tier):
         maxlen = 4 if tier == "quick" else 5
         vals = [""]
         for n in range(1, maxlen + 1):
             vals.extend("".join(t) for t in itertools.product(ALPHA14, repeat=n))
-        # boundary digit strings
-        digs = set()
-        for n in range(1, 22):
-            digs.update(["9" * n, "1" + "0" * (n - 1), "0" * (n - 1) + "1", "0" * n, "0" + "9" * (n - 1)])
-        digs.update(["2562047", "2562048", "2562049", "5124095", "5124096", "5124097", "7686143", "7686144", "99999999", "100000000",
-                     "153722867", "153722868", "9999999999", "10000000000", "9223372036854", "9223372036855",
-                     "9223372036854775807", "9223372036854775808", "18446744073709551616"])
-        bnd = []
-        for d in sorted(digs):
-            bnd.append(d)
-            for u in UNITS + "hsUN ":
-                bnd.append(d + u)
-            bnd.extend(["+" + d, "-" + d, "+" + d + "S", "-" + d + "m", " " + d, d + " ", d + "_" + d + "n", d + ".0S"])
+        bnd = boundary_values()
         rnd = []
         n_rand = 4000 if tier == "quick" else 100000
         for _ in range(n_rand):
@@ -234,9 +281,10 @@ class C12(Prop):
             yield ["c12.seq", [req_sx(r)]]
 
     def generate(self, rng, tier):
-        acts = list(range(N_ACTUAL))
+        # chunks of 36 renderings (one version x shape x codec slice): small enough for the shrinker
         for e in range(N_AXES):
-            yield ["c12.matrix", e, acts]
+            for i in range(0, N_ACTUAL, 36):
+                yield ["c12.matrix", e, list(range(i, i + 36))]
         for a in range(N_ACTUAL):
             yield ["c12.render", a, rng.randrange(N_AXES)]
         for e in range(N_AXES):
